@@ -520,6 +520,8 @@ class FuncTyper:
             for v in kids(s):
                 if kids(v):
                     self.ty(kids(v)[0])
+        elif k == "IfStmt" and self._kind_dispatch_assign(s):
+            return
         elif k in ("ForStmt", "WhileStmt", "DoStmt", "CXXForRangeStmt", "IfStmt", "SwitchStmt", "CaseStmt", "DefaultStmt"):
             for c_ in s.get("c", []):
                 if c_ is None:
@@ -536,6 +538,32 @@ class FuncTyper:
             return
         else:
             self.handle_expr(s)
+
+    def _kind_dispatch_assign(self, s):
+        """`T v; if (is-variable-suffix) v = a; else v = b;` is the statement form of `T v = flag ? a : b`: the local gets the
+        conditional expression as its initialiser (typed by the kind dispatch of ty())"""
+        ks = [x for x in s.get("c", []) if x is not None]
+        if len(ks) != 3 or self.kind_flag(ks[0]) is None:
+            return False
+
+        def single_assign(b):
+            while b is not None and b["k"] == "CompoundStmt" and len(kids(b)) == 1:
+                b = kids(b)[0]
+            b = strip(b) if b is not None else None
+            if b is not None and b["k"] == "BinaryOperator" and b.get("op") == "=" and strip(kids(b)[0])["k"] == "DeclRefExpr":
+                return strip(kids(b)[0]).get("declId"), kids(b)[1]
+            return None
+        a, b = single_assign(ks[1]), single_assign(ks[2])
+        if a is None or b is None or a[0] != b[0] or a[0] not in self.locals or kids(self.locals[a[0]]):
+            return False
+        other = [n for n in self.f.walk() if n["k"] in ("BinaryOperator", "CompoundAssignOperator") and n.get("op", "").endswith("=") and
+                 n.get("op") not in ("==", "!=", "<=", ">=") and strip(kids(n)[0]).get("declId") == a[0]]
+        if len(other) != 2:
+            return False
+        v = dict(self.locals[a[0]])
+        v["c"] = [{"k": "ConditionalOperator", "i": -1, "c": [ks[0], a[1], b[1]], "l": s.get("l")}]
+        self.locals[a[0]] = v
+        return True
 
     # sinks -----------------------------------------------------------------------------
     SINKS = None
